@@ -260,6 +260,10 @@ func (s *sim) stepBatch() {
 		c.Count("suppressed_repeat_of_hit_shape", 1)
 		return
 	}
+	if knownOOM(toBytes(as)) {
+		c.Count("skipped_known_unbounded_allocation_shape", 1)
+		return
+	}
 	s.addWatch(as)
 	K := func(n string) string { return fullKey(mainTable, n) }
 	neighbour := func(typ string) member {
@@ -390,6 +394,9 @@ func (s *sim) stepBatch() {
 	merr := mo.isErr || mo.noReply
 	s.noteHLL(margs, !merr)
 	moved := s.applied() - ap0
+	if merr && isBatchable(name) && moved >= uint64(len(ms)) {
+		s.batchAbortHazard = true
+	}
 	if maxBatch >= 2 {
 		c.Probe("multi_entry_apply_batch")
 		if merr && moved >= uint64(len(ms)) {
@@ -421,6 +428,7 @@ func (s *sim) stepBatch() {
 		}
 		if mb.o.isErr {
 			c.Probe("valid_neighbour_got_error_in_batch")
+			s.batchAbortHazard = true
 			continue
 		}
 		st, ok := modelFrom(exp, mb.key)
@@ -472,8 +480,8 @@ func (s *sim) stepBatch() {
 			s.reportPanics(ps, shape, sent)
 		}
 		d2 := s.dump()
-		if df := diffDump(d1, d2); df != "" {
-			s.violate("replay-diverged", replayKey(name, moved >= uint64(len(ms))), "apply batch (%s); after a restart (graceful=%v) the node serves different data: %s", strings.Join(line, " ;; "), graceful, df)
+		if df := s.diffRestart(d1, d2); df != "" {
+			s.violate("replay-diverged", s.replayKey(name, moved >= uint64(len(ms))), "apply batch (%s); after a restart (graceful=%v) the node serves different data: %s", strings.Join(line, " ;; "), graceful, df)
 			s.hitShapes[shape] = true
 		}
 		s.base, s.baseR = d2, s.rawSnap()
